@@ -219,3 +219,18 @@ def f21_root_popped_by_surplus_dotdot(rec, args):
     got = obs.get("raw_path") if isinstance(obs, dict) else None
     exp = rec.get("expected")
     return isinstance(got, str) and isinstance(exp, str) and exp.startswith("//") and got == exp[1:]
+
+
+_F27 = re.compile(r"\[(v[0-9a-f]+\.[a-z0-9\-._~!$&'()*+,;=]+)\]")
+
+
+@predicate
+def f27_colonless_ipvfuture_brackets(rec, args):
+    """C04 'canonical' case: the string's host is a bracketed IPvFuture literal without any ':' and the only change is that
+    exactly those brackets are gone."""
+    if rec.get("case") != "canonical" or not args or not isinstance(args[0], str):
+        return False
+    s = args[0]
+    m = _F27.search(s)
+    got = rec.get("observed")
+    return bool(m) and isinstance(got, str) and got == s[:m.start()] + m.group(1) + s[m.end():]
